@@ -18,16 +18,7 @@ from . import nlp
 from .backend import ufun, unknown
 
 
-def _partials(name, nout, args_list):
-    """dE_o/d(arg entry j) as the model names it: <name>_<o>__d<j> applied to the same arguments"""
-    flat = []
-    for a in args_list:
-        flat.extend(ca.tz(x) for x in ca._coerce(a).e)
-    out = []
-    for o in range(nout):
-        decl = z3.Function("%s_%d" % (name, o), *([z3.RealSort()] * (len(flat) + 1)))
-        out.append([ca.MX._raw(1, 1, [ca._dfun(decl, j)(*flat)]) for j in range(len(flat))])
-    return out
+from .backend import upartials as _partials
 
 
 def der_cases(nx, time_dep_ode):
@@ -127,6 +118,7 @@ def tasks(tier):
             out.append(Task("C16/der[nx=%d,%s]" % (nx, "t" if td else "autonomous"), lambda nx=nx, td=td: der_cases(nx, td), kind="bounded", replay=dict(harness="der_probe", nx=nx, td=td),
                             bound=dict(nx=nx, expressions="uninterpreted e(x,p), g(x,t,p), polynomial, states", ode="uninterpreted")))
     for order in (1, 2, 3):
-        out.append(Task("C16/control-chain[order=%d]" % order, lambda order=order: control_chain(order), kind="bounded", bound=dict(order=order)))
-    out.append(Task("C16/signal", signal_der, kind="bounded", bound=dict(signal_order=2)))
+        out.append(Task("C16/control-chain[order=%d]" % order, lambda order=order: control_chain(order), kind="bounded", bound=dict(order=order),
+                        replay=dict(harness="task_probe", module="contracts.c16", task="C16/control-chain[order=%d]" % order, tier=tier)))
+    out.append(Task("C16/signal", signal_der, kind="bounded", bound=dict(signal_order=2), replay=dict(harness="task_probe", module="contracts.c16", task="C16/signal", tier=tier)))
     return out
